@@ -135,6 +135,7 @@ type Sample struct {
 	Reg      []int
 	ObsVals  [][2]int
 	Vals     [][2]int
+	Edges    map[int][]int // registered node -> its linked inputs (sorted ids), sentinels left out
 }
 
 func (s Sample) Coq() string {
@@ -149,8 +150,12 @@ func (s Sample) Coq() string {
 		}
 		return "[" + strings.Join(parts, "; ") + "]"
 	}
-	return fmt.Sprintf("EObs %s %s [%s] %s %s %s %s %s", hx.Bool(s.Crashed), s.Class, strings.Join(evs, "; "),
-		hx.Z(int64(s.NumNodes)), hx.NatList(s.Heap), hx.NatList(s.Reg), pairs(s.ObsVals), pairs(s.Vals))
+	edges := make([]string, 0, len(s.Reg))
+	for _, id := range s.Reg {
+		edges = append(edges, fmt.Sprintf("(%d%%nat, %s)", id, hx.NatList(s.Edges[id])))
+	}
+	return fmt.Sprintf("EObs %s %s [%s] %s %s %s %s %s [%s]", hx.Bool(s.Crashed), s.Class, strings.Join(evs, "; "),
+		hx.Z(int64(s.NumNodes)), hx.NatList(s.Heap), hx.NatList(s.Reg), pairs(s.ObsVals), pairs(s.Vals), strings.Join(edges, "; "))
 }
 
 type harnessPanic struct{ node int }
@@ -634,6 +639,19 @@ func (e *Exec) sample(out *Sample) {
 		}
 		if ref.Inc != nil {
 			out.Vals = append(out.Vals, [2]int{id, ref.Inc.Value()})
+		}
+		if e.Registered(id) && ref.Kind != "Sentinel" {
+			ps := []int{}
+			for _, p := range incr.ExpertNode(ref.INode).Parents() {
+				if pid, ok := e.byPtr[p.Node()]; ok && e.Nodes[pid] != nil && e.Nodes[pid].Kind != "Sentinel" {
+					ps = append(ps, pid)
+				}
+			}
+			sort.Ints(ps)
+			if out.Edges == nil {
+				out.Edges = map[int][]int{}
+			}
+			out.Edges[id] = ps
 		}
 	}
 	var oids []int
